@@ -31,6 +31,21 @@ func queryKeys(w *World, path string, stride int, rng *rand.Rand) []Q {
 	return queryKeysFocus(w, path, stride, rng, "", nil)
 }
 
+// queryKeysFocusAll: the focus lines apply to every file
+func queryKeysFocusAll(w *World, path string, stride int, rng *rand.Rand, focus map[int]bool) []Q {
+	seen := map[string]bool{}
+	out := []Q{}
+	for _, f := range sortedKeys(w.Docs) {
+		for _, q := range queryKeysFocus(w, path, stride, rng, f, focus) {
+			if k := qKey(q); !seen[k] {
+				seen[k] = true
+				out = append(out, q)
+			}
+		}
+	}
+	return out
+}
+
 // queryKeysFocus: as queryKeys, but every position on the focus lines of the focus file is kept whatever the stride.
 func queryKeysFocus(w *World, path string, stride int, rng *rand.Rand, focusFile string, focus map[int]bool) []Q {
 	qs := []Q{}
@@ -89,6 +104,7 @@ func cmdDet(fs *flag.FlagSet) {
 	seed := fs.Int64("seed", 1, "seed")
 	rounds := fs.Int("rounds", 6, "rounds per regime")
 	stride := fs.Int("stride", 7, "position stride")
+	nstates := fs.Int("states", 0, "half-typed buffer states per world besides the documents")
 	fs.Parse(os.Args[2:])
 	hangFile = *out + ".hang"
 	startWatchdog(10 * time.Second)
@@ -99,40 +115,97 @@ func cmdDet(fs *flag.FlagSet) {
 		wg.Add(1)
 		go func(wi int, wn string) {
 			defer wg.Done()
-			w := worldByName(wn)
+			w0 := worldByName(wn)
 			wt := newWatch()
 			rng := rand.New(rand.NewSource(*seed + int64(wi)))
-			tw := newTraceWriter(fmt.Sprintf("%s.%03d.ndjson", *out, wi))
-			defer tw.Close()
-			tw.Emit(Event{"ev": "Init", "p": "p1", "world": wn, "files": sortedKeys(w.Docs)})
-			keys := queryKeys(w, "p1", *stride, rng)
-			// regime 1: one environment, one decoder, shuffled order per round (history independence)
-			env := newEnv(w, "p1")
-			env.Recollect(wt, "p1")
-			emit := func(regime string, q Q, o Outcome) {
-				tw.Emit(Event{"ev": "Det", "key": qKey(q), "dg": obsDigest(o), "regime": regime})
-				total[wi]++
+			// four trace files per world (validated in parallel)
+			tws := map[int]*traceWriter{}
+			defer func() {
+				for _, t := range tws {
+					t.Close()
+				}
+			}()
+			var tw *traceWriter
+			// buffer states: the documents as they are, then sampled half-typed states of every native document
+			type dstate struct {
+				w      *World
+				note   string
+				rounds int
 			}
-			for r := 0; r < *rounds; r++ {
-				rng.Shuffle(len(keys), func(i, j int) { keys[i], keys[j] = keys[j], keys[i] })
-				for _, q := range keys {
-					emit("same-decoder", q, env.Run(wt, q))
+			states := []dstate{{w0, "doc", *rounds}}
+			if *nstates > 0 {
+				cands := []StateSpec{}
+				for _, f := range sortedKeys(w0.Docs) {
+					if strings.HasSuffix(f, ".json") {
+						continue
+					}
+					cands = append(cands, prefixStates(w0, f, 1, 0)...)
+					cands = append(cands, editStates(w0, f, rng, 0.02, 0)...)
+				}
+				rng.Shuffle(len(cands), func(i, j int) { cands[i], cands[j] = cands[j], cands[i] })
+				if len(cands) > *nstates {
+					cands = cands[:*nstates]
+				}
+				for _, c := range cands {
+					w2 := *w0
+					w2.Docs = map[string]string{}
+					for k, v := range w0.Docs {
+						w2.Docs[k] = v
+					}
+					w2.Docs[c.File] = string(c.Src)
+					states = append(states, dstate{&w2, c.File + ":" + c.Note, *rounds/3 + 1})
 				}
 			}
-			// regime 2: fresh decoder per call on the same context
-			for r := 0; r < *rounds/2+1; r++ {
-				for _, q := range keys {
-					d := decoder.NewDecoder(env.R)
-					d.SetContext(decoder.NewDecoderContext())
-					emit("fresh-decoder", q, env.RunOn(wt, d, q))
+			for si, st := range states {
+				w := st.w
+				if t, ok := tws[si%4]; ok {
+					tw = t
+					tw.Emit(Event{"ev": "Reset"})
+				} else {
+					tw = newTraceWriter(fmt.Sprintf("%s.%03d.ndjson", *out, wi*4+si%4))
+					tws[si%4] = tw
 				}
-			}
-			// regime 3: fresh environment (schema, files, targets built anew) per round
-			for r := 0; r < *rounds/2+1; r++ {
-				e2 := newEnv(worldByName(wn), "p1")
-				e2.Recollect(wt, "p1")
-				for _, q := range keys {
-					emit("fresh-context", q, e2.Run(wt, q))
+				tw.Emit(Event{"ev": "Init", "p": "p1", "world": wn, "state": st.note, "files": sortedKeys(w.Docs)})
+				focus := map[int]bool{1: true}
+				keys := []Q{}
+				for _, f := range sortedKeys(w.Docs) {
+					nl := strings.Count(w.Docs[f], "\n") + 1
+					focus[nl], focus[nl-1] = true, true
+				}
+				for _, f := range sortedKeys(w.Docs) {
+					_ = f
+				}
+				keys = queryKeysFocusAll(w, "p1", *stride, rng, focus)
+				// regime 1: one environment, one decoder, shuffled order per round (history independence)
+				env := newEnv(w, "p1")
+				env.Recollect(wt, "p1")
+				emit := func(regime string, q Q, o Outcome) {
+					tw.Emit(Event{"ev": "Det", "key": qKey(q), "dg": obsDigest(o), "regime": regime})
+					total[wi]++
+				}
+				for r := 0; r < st.rounds; r++ {
+					rng.Shuffle(len(keys), func(i, j int) { keys[i], keys[j] = keys[j], keys[i] })
+					for _, q := range keys {
+						emit("same-decoder", q, env.Run(wt, q))
+					}
+				}
+				// regime 2: fresh decoder per call on the same context
+				for r := 0; r < st.rounds/2+1; r++ {
+					for _, q := range keys {
+						d := decoder.NewDecoder(env.R)
+						d.SetContext(decoder.NewDecoderContext())
+						emit("fresh-decoder", q, env.RunOn(wt, d, q))
+					}
+				}
+				// regime 3: fresh environment (schema, files, targets built anew) per round
+				for r := 0; r < st.rounds/2+1; r++ {
+					wf := worldByName(wn)
+					wf.Docs = w.Docs
+					e2 := newEnv(wf, "p1")
+					e2.Recollect(wt, "p1")
+					for _, q := range keys {
+						emit("fresh-context", q, e2.Run(wt, q))
+					}
 				}
 			}
 		}(wi, wn)
@@ -142,7 +215,7 @@ func cmdDet(fs *flag.FlagSet) {
 	for _, t := range total {
 		n += t
 	}
-	fmt.Printf("{\"events\":%d,\"files\":%d}\n", n, len(names))
+	fmt.Printf("{\"events\":%d,\"files\":%d}\n", n, len(names)*4)
 }
 
 // ---------------------------------------------------------------- frame (C04)
